@@ -526,11 +526,20 @@ def extract_py_rendering(repo):
 
 
 def extract_graph_validates(repo):
-    """does DependencyGraph.get_ordered check its result and raise when an order is impossible?"""
+    """does DependencyGraph.get_ordered check its result and raise when an order is impossible?
+    True only for the shape the model's `validate` variant describes: a loop over ALL registered
+    nodes (`self._nodes`) that raises when a node is missing from the result or placed before one
+    of its dependencies."""
     tree = ast.parse(_src(repo, 'django_evolution/utils/graph.py'))
     cls = _find_class(tree, 'DependencyGraph')
     fn = _find_func(cls, 'get_ordered')
-    return any(isinstance(n, ast.Raise) for n in ast.walk(fn))
+    for n in ast.walk(fn):
+        if isinstance(n, ast.For) and '_nodes' in ast.unparse(n.iter):
+            raises = [r for r in ast.walk(n) if isinstance(r, ast.Raise)]
+            tests = ' '.join(ast.unparse(i.test) for i in ast.walk(n) if isinstance(i, ast.If))
+            if raises and 'is None' in tests and 'dependencies' in tests:
+                return True
+    return False
 
 
 def extract_rename_app_label_fixed(repo):
